@@ -61,3 +61,26 @@ Example ex_field_clash :
   meet ex_open (TRec false [(FName 0, TAtom AStr)]) =
   TRec false [(FName 0, TBad); (FPos 0, TList TAny)].
 Proof. reflexivity. Qed.
+
+(* ---------- references: both sides denote the same type, for ever (Types/TypeHist.v) ---------- *)
+From LV Require Import Types.TypeHist.
+Theorem C16_unified_references_stay_equal :
+  forall s i j later, i < length (cls s) -> j < length (cls s) ->
+  let s' := hrun (hstep s (HUnify i j)) later in type_of s' i = type_of s' j.
+Proof. exact unified_references_stay_equal. Qed.
+
+Theorem C16_unification_gives_the_meet :
+  forall s i j, i < length (cls s) -> class_of s i < length (tys s) -> class_of s i <> class_of s j ->
+  type_of (hstep s (HUnify i j)) i = meet (type_of s i) (type_of s j).
+Proof. exact unify_gives_meet. Qed.
+
+Theorem C16_repeating_in_a_history_changes_nothing :
+  forall s i j, i < length (cls s) -> j < length (cls s) ->
+  hstep (hstep s (HUnify i j)) (HUnify i j) = hstep s (HUnify i j) /\
+  hstep (hstep s (HUnify i j)) (HUnify j i) = hstep s (HUnify i j).
+Proof. exact unify_then_repeat. Qed.
+
+Example ex_history :
+  view (hrun (hinit [TAny; TRec false [(FName 0, TAtom ANum)]; TAny]) [HUnify 0 1; HUnify 2 0; HClose 1]) =
+  let t := TRec true [(FName 0, TAtom ANum)] in [t; t; t].
+Proof. reflexivity. Qed.
